@@ -251,6 +251,14 @@ def no_operand_mutation(ctx, prefixes=("dask/dataframe/dask_expr/", "dask/array/
             for c in ast.walk(f):
                 if isinstance(c, ast.Call) and isinstance(c.func, ast.Attribute) and c.func.attr in _MUTATORS and isinstance(c.func.value, ast.Name) and c.func.value.id in aliases:
                     ctx.ob("EFFECT.no-operand-mutation", c, f"{qn}: `{unparse(c)[:50]}` does not modify shared expression state", False, f"`{c.func.value.id}` is bound directly to state reachable from self and is modified in place: every other expression sharing that operand changes with it")
+            for c in ast.walk(f):
+                # `alias += [..]` / `alias |= {..}` extend the shared list/set/dict in place; `alias[k] = v` stores into it
+                if isinstance(c, ast.AugAssign) and isinstance(c.target, ast.Name) and c.target.id in aliases and isinstance(c.value, (ast.List, ast.ListComp, ast.Set, ast.SetComp, ast.Dict, ast.DictComp)):
+                    ctx.ob("EFFECT.no-operand-mutation", c, f"{qn}: `{unparse(c)[:50]}` does not modify shared expression state", False, f"`{c.target.id}` is bound directly to state reachable from self and is extended in place: every other expression sharing that operand changes with it")
+                if isinstance(c, (ast.Assign, ast.Delete)):
+                    for tg in c.targets:
+                        if isinstance(tg, ast.Subscript) and isinstance(tg.value, ast.Name) and tg.value.id in aliases and not tg.value.id.endswith("_cache"):  # memo tables (FromPandas._division_info) are written on purpose
+                            ctx.ob("EFFECT.no-operand-mutation", c, f"{qn}: `{unparse(c)[:50]}` does not modify shared expression state", False, f"`{tg.value.id}` is bound directly to state reachable from self and an element of it is replaced/deleted in place")
     ctx.count("self_alias_locals", n)
     ctx.floor("self_alias_locals", 50, "locals bound directly to self.<...> in expression classes")
 
